@@ -185,6 +185,30 @@ def main():
                                  f"current column {newcol} gives {want!r}", PRELUDE + ORACLE_SRC + body +
                                  "names = tuple(sorted(set(t[t._index]) | {'a', 'b', 'c'})) + ('zz',)\nbad = check_all(t, names, (None, -2, -1, 0, 1, 2), (None, -1, 1))\nassert not bad, bad[:5]\n",
                                  "Table.__setitem__")
+    rac.section("fixed-width-index", "tables built with cast_strings=False: the index column keeps numpy's fixed-width string type (as wide as the longest "
+                "name), names of different lengths with repeats; every designator and every unique label ('q::2' is longer than 'q') resolves as on "
+                "an object-typed column, on the fresh table and after a cell of the index column was renamed through the table API",
+                "every column of length 1..4 over 3 names of different length, 2 renames")
+    FW = ("q", "d1", "bpm")
+    import numpy as np
+    for n in range(1, 5):
+        for col in itertools.product(FW, repeat=n):
+            for upd in (None, "t['name', 0] = 'q'", "t['name', len(t) - 1] = 'd1'"):
+                if rac.out_of_time(0.9):
+                    break
+                t = xdeps.Table({"name": np.array(list(col)), "v": np.arange(n, dtype=float), "w": np.arange(n) * 10}, cast_strings=False)
+                if upd:
+                    t.rows.get_index(col[0])          # (warm the cache)
+                    exec(upd, dict(t=t))
+                bad = check_all(t, FW + ("zz",), (None, -2, -1, 0, 1, 2), (None, -1, 1))
+                rac.case(("fixed-width", col, upd), nontrivial=len(set(col)) < len(col), sample=dict(column=list(col), update=upd))
+                if bad:
+                    how, des, got, want = bad[0]
+                    rac.fail(f"fixed-width {col} {upd} {how} {des!r}", f"C07 fixed-width index column {list(col)}" + (f" after {upd}" if upd else "") +
+                             f": {how}({des!r}) gives {got!r}, a scan of the column gives {want!r} ({len(bad)} mismatches)",
+                             PRELUDE + ORACLE_SRC + f"t = xdeps.Table({{'name': np.array({list(col)!r}), 'v': np.arange({n}, dtype=float), 'w': np.arange({n}) * 10}}, cast_strings=False)\n"
+                             + (f"t.rows.get_index({col[0]!r}); {upd}\n" if upd else "") +
+                             f"bad = check_all(t, {FW + ('zz',)!r}, (None, -2, -1, 0, 1, 2), (None, -1, 1))\nassert not bad, bad[:5]\n", "Table._make_cache")
     rac.section("names", "longer / mixed-case / digit-bearing / separator-free unicode names, random columns of length 6..40, random "
                 "update sequences of length 3..6", "60 quick / 1500 thorough", exhaustive=False)
     pool = ["ip1", "ip2", "mq.1", "MQ.1", "d_r", "e-x", "αβ", "n10", "n1", "x y"]
